@@ -74,6 +74,9 @@ def ref_eval(node, env):
     if k == "sig":
         _, name, w, s = node
         return env[name], (w, s)
+    if k == "pyint":
+        node = ["const", node[1], None, False]      # an int operand is cast like Const(v)
+        k = "const"
     if k == "const":
         _, v, w, s = node
         if w is None:
